@@ -14,7 +14,7 @@ fn pat_class(o: &O) -> String { let mut ks: Vec<&'static str> = vec![]; fn rec(o
 pub fn run(ctx: &Ctx) -> i32 {
     let th = ctx.tier.thorough();
     let w = if th { 6 } else { 5 };
-    let mut trees = families::plain(w); trees.extend(families::nsn());
+    let mut trees = families::plain(w); trees.extend(families::nsn()); trees.extend(families::valued());
     { // bases with two and three assertions (weight 8 and 11), so that regrouped near misses and several same-digest positions occur
         use crate::refmodel::tree::{assertion as asr, leaf_text as lt, node};
         let (a, one, k) = (lt("a"), M::Leaf(crate::refmodel::dcbor::V::U(1)), M::Known(1));
@@ -36,6 +36,24 @@ pub fn run(ctx: &Ctx) -> i32 {
         for mask in 1u32..(1u32 << k) {
             let t = bind::dset(&(0..k).filter(|i| mask >> i & 1 == 1).map(|i| ds[i]).collect::<Vec<_>>());
             for a in 0..4 { if let Ok(r) = catch(|| e.elide_removing_set_with_action(&t, &actions(a))) { if a == 2 || seen.insert(bind::observe(&r)) { first.push(r) } } }
+        }
+        // the law itself: obscuring any PRESENT element - of the original or of a variant that already has obscured parts - gives a result that is
+        // equivalent to, and not identical with, what it was applied to (whatever the action)
+        fn visible(o: &O, out: &mut Vec<D>) { if !matches!(o, O::Obscured(..)) { out.push(o.digest()); for (_, c) in o.children() { visible(c, out) } } }
+        for (fi, f) in std::iter::once(&e).chain(first.iter().take(if th { 80 } else { 30 })).enumerate() {
+            let mut vis = vec![]; visible(&bind::observe(f), &mut vis); vis.sort(); vis.dedup();
+            for d in vis { for a in [0usize, 1, 3] {
+                acc.inc("obscure_a_present_element");
+                let cid = || format!("base{ti}/variant{fi}/obscure-{}-{a}", hex::encode(&d[..4]));
+                let det = || json!({"base": m.show(), "before": crate::report::ff(f), "before_bytes": hex::encode(f.to_cbor_data()), "target": hex::encode(d), "action": (["Elide", "Encrypt", "", "Compress"][a])});
+                match catch(|| { let r = f.elide_removing_set_with_action(&bind::dset(&[d]), &actions(a)); (f.is_equivalent_to(&r), f.is_identical_to(&r), *f == r, f.structural_digest() == r.structural_digest()) }) {
+                    Ok((eq, id, eqq, sd)) => {
+                        if !eq { acc.viol(format!("C14|obscure-present|{}|not-equivalent", ["elide", "encrypt", "", "compress"][a]), "the result of obscuring a present element is not equivalent to the original", cid(), det()) }
+                        if id || eqq || sd { acc.viol(format!("C14|obscure-present|{}|still-identical", ["elide", "encrypt", "", "compress"][a]), "the result of obscuring a present element is reported identical to what it was applied to", cid(), det()) }
+                    }
+                    Err(_) => acc.inc("panics_counted_under_C02_C16"),
+                }
+            } }
         }
         // second pass: two-action mixes
         let mut second = vec![];
